@@ -58,4 +58,9 @@ CLAIMED['C18'] = {
     'text': 'Key paths are proved to address exactly the nested entry (frame included) and to reject a fourth level; the YAML file and text routes are proved to preserve sift type and options for any plain-data store under the assumed PyYAML contract; the default configuration is proved to carry the live signature defaults and to reach the extraction stage with the same effective arguments as a call without options. Output equality of callables is bounded.',
     'note': 'Assumes str.split, dict semantics of CPython, the PyYAML round-trip contract for plain data and (via C06) Pool.starmap; the pyvc engine and SMT solvers are trusted.',
 }
+CLAIMED['C04'] = {
+    'technique': 'deductive: loop invariant (iterate recurrence + stop history over uninterpreted envelope functions), variant, exhaustive-outcome postcondition and exceptional postcondition of get_next_imf for the three stopping rules; sd_stop / rilling_stop / fixed_stop against their formulas; VCs from the real source discharged by z3/cvc5; bounded stand-in: iterate sequence recomputed natively over signals x rules x limits, short signals where the extrema vanish mid-sift',
+    'text': 'For every signal length, step size, thresholds and iteration limit, get_next_imf is proved to return the iterate at which the rule first fires with its full envelope mean removed, or the first iterate without envelopes, to flag the final residual only for an input without envelopes, to raise the convergence error only beyond the limit, and to terminate (variant). Envelopes are uninterpreted functions of the iterate (interp_envelope is modular, C05).',
+    'note': PROOF_NOTE + 'interp_envelope by contract; a vector with both envelopes is assumed non-zero; rilling_stop assumes pointwise distinct envelopes.',
+}
 PENDING_REASON = {}
